@@ -421,7 +421,7 @@ def _shared_sub() -> str:
 
 
 def _rule_reeval() -> str:
-    """F-C03-2: a rule query with a conclusion selector (alternative) evaluated twice"""
+    """F-C03-2 (fixed, corpus case): a rule query with a conclusion selector (alternative) evaluated twice"""
     from dataclasses import dataclass
     from krrood.entity_query_language.entity import let, entity, inference
     from krrood.entity_query_language.quantify_entity import an
